@@ -6,8 +6,8 @@ import common as C
 
 S1, S2, S3, S4, S5, S6 = "SENTroot7q", "SENTalice3x", "SENTbobpw9k", "SENTgadm4w", "SENToper5v", "SENTwild8m"
 KSENT, HSENT, SALT = "U0VOVGtleW1hdGVyaWFsMTIzNDU2Nzg5MDEyMzQ1Ng", "53454e5468617368aabbccddeeff00112233445566778899aabbccddeeff0011", "53454e5473616c74"
-SENTINELS = [S1, S2, S3, S4, S5, S6, KSENT, HSENT, SALT, "SENThadm2z", "SENTcarol"]
-PREFIX = {"C17": ("C17_",), "C18": ("C18_",), "C12": ("C12_",), "C11": ("C11_",)}
+SENTINELS = [S1, S2, S3, S4, S5, S6, KSENT, HSENT, SALT, "SENThadm2z", "SENTcarol", "SENTempty6u"]
+PREFIX = {"C17": ("C17_", "C18_X1_acknowledged_update_silently_lost"), "C18": ("C18_",), "C12": ("C12_",), "C11": ("C11_",)}
 
 
 def fixture():
@@ -17,7 +17,8 @@ def fixture():
         "carol": {"password": {"type": "pbkdf2", "hash": "sha-256", "key": HSENT, "salt": SALT, "iterations": 2}, "permissions": "message"},
         "oper": {"password": S5, "permissions": "op"},
         "gadmin": {"password": S4, "permissions": "admin"},
-        "obs": {"password": "obspw", "permissions": "observe"}},
+        "obs": {"password": "obspw", "permissions": "observe"},
+        "": {"password": "SENTempty6u", "permissions": "present"}},
         "wildcard-user": {"password": S6, "permissions": "message"},
         "authKeys": [{"kty": "oct", "alg": "HS256", "k": KSENT, "kid": "k1"}]}
     h = {"users": {"hadmin": {"password": "SENThadm2z", "permissions": "admin"}, "bob": {"password": "hb", "permissions": "present"}}}
@@ -53,8 +54,9 @@ BODY = {"group": ('{"displayName":"changed"}', "application/json"), "user": ('{"
         "othergroup": ('{"displayName":"changed"}', "application/json")}
 CRED = {"none": ({}, "", ""), "wrongpw": ({}, "root", "nope"), "user": ({}, "bob", S3), "op": ({}, "oper", S5), "otheradmin": ({}, "hadmin", "SENThadm2z"),
         "gadmin": ({}, "gadmin", S4), "root": ({}, "root", S1), "tokout": ({"Authorization": "Bearer tokh"}, "", ""),
-        "tokin": ({"Authorization": "Bearer toking"}, "", ""), "tokroot": ({"Authorization": "Bearer tokroot"}, "", ""), "selfpw": ({}, "whoever", S2)}
-X0 = {"class": "serve", "addr": "any", "g": "", "editor": "", "form": "none", "hdr": "", "expected": 0, "granted": 0, "obj": "desc"}
+        "tokin": ({"Authorization": "Bearer toking"}, "", ""), "tokroot": ({"Authorization": "Bearer tokroot"}, "", ""), "selfpw": ({}, "whoever", S2),
+        "emptypw": ({}, "whoever", "SENTempty6u"), "otherpw": ({}, "alice", S3)}
+X0 = {"class": "serve", "addr": "any", "g": "", "editor": "", "form": "none", "hdr": "", "expected": 0, "granted": 0, "obj": "desc", "kind": "", "keys": []}
 OBJ = {"group": "desc", "user": "alice", "password": "alice", "keys": "keys", "wildcard": "wild", "wildpassword": "wild"}
 
 
@@ -100,6 +102,11 @@ def table_behaviours(rows):
 
 
 FORMS = ["exact", "exact", "exact", "list-containing", "list-not-containing", "weak", "star", "malformed", "empty-quoted"]
+PATH["ngroup"] = "/galene-api/v0/.groups/n"
+ADDR["ngroup"] = "n:desc"
+OBJ["ngroup"] = "desc"
+BODY["ngroup"] = ('{"displayName":"n"}', "application/json")
+PARTKEY = {"group": "g:rest", "password": "g:user:alice:pw", "keys": "g:keys", "wildpassword": "g:wild:pw"}
 PATH["newuser"] = "/galene-api/v0/.groups/g/.users/newuser"
 PATH["newpassword"] = "/galene-api/v0/.groups/g/.users/newuser/.password"
 ADDR["newuser"] = "g:user:newuser"
@@ -111,7 +118,7 @@ BODY["newpassword"] = ('"np"', "application/json")
 
 
 def write_body(r, e, k):
-    if e == "group":
+    if e in ("group", "ngroup"):
         return json.dumps({"displayName": "v%d" % k, "description": "x" * (k % 7)})
     if e in ("user", "newuser", "wildcard"):
         return json.dumps({"permissions": r.choice(["present", "message", "observe", "op"])})
@@ -120,6 +127,9 @@ def write_body(r, e, k):
     if e == "keys":
         return json.dumps({"keys": [{"kty": "oct", "alg": "HS256", "k": base64.urlsafe_b64encode(("key-%028d" % k).encode()).decode().rstrip("="), "kid": "k%d" % k}]})
     return None
+
+
+RACE_WRITES = [8]
 
 
 def sequences(seed, n):
@@ -133,7 +143,7 @@ def sequences(seed, n):
         for i in range(30):
             k += 1
             name = "b%d-%d" % (b, k)
-            kind = r.choice(["get", "get", "get", "put", "put", "put", "put", "delete", "inm", "race"])
+            kind = r.choice(["get", "get", "get", "put", "put", "put", "put", "delete", "inm", "race", "race"])
             if kind == "get" or not gets:
                 ge = r.choice(["group", "user", "newuser", "wildcard"])
                 hdrs = {}
@@ -154,10 +164,30 @@ def sequences(seed, n):
                 meta[name] = dict(X0, g="g", editor=src, form="star", hdr="If-None-Match", addr=ADDR[e], obj=OBJ[e])
                 continue
             if kind == "race":
-                e = r.choice(["group", "user", "password", "keys", "wildcard"])
-                reqs = [request("%s-%d" % (name, j), "PUT", e, "root", {"If-Match": "$etag:" + src}, write_body(r, e, 100 * k + j)) for j in range(r.choice([2, 3, 6]))]
+                sub = r.choice(["sametag", "sametag", "mixed", "unconditional", "create", "readers"])
+                if sub == "sametag":
+                    e = r.choice(["group", "user", "password", "keys", "wildcard"])
+                    reqs = [request("%s-%d" % (name, j), "PUT", e, "root", {"If-Match": "$etag:" + src}, write_body(r, e, 100 * k + j)) for j in range(r.choice([2, 3, 6]))]
+                    meta[name] = dict(X0, g="g", editor=src, form="exact", hdr="If-Match", addr="any", obj=OBJ[e], kind="sametag")
+                elif sub == "mixed":
+                    es = [r.choice(["group", "user", "password", "keys", "wildcard", "wildpassword"]) for j in range(r.choice([2, 3, 5]))]
+                    reqs = [request("%s-%d" % (name, j), "PUT", e, "root", {"If-Match": "$etag:" + src}, write_body(r, e, 100 * k + j)) for j, e in enumerate(es)]
+                    meta[name] = dict(X0, g="g", editor=src, form="exact", hdr="If-Match", addr="any", obj="desc", kind="sametag")
+                elif sub == "unconditional":
+                    es = r.sample(["group", "password", "keys", "wildpassword"], r.choice([2, 3, 4]))
+                    reqs = [request("%s-%d" % (name, j), "PUT", e, "root", {}, write_body(r, e, 100 * k + j)) for j, e in enumerate(es)]
+                    meta[name] = dict(X0, g="g", addr="any", kind="unconditional", keys=[PARTKEY[e] for e in es])
+                elif sub == "create":
+                    e = r.choice(["ngroup", "newuser"])
+                    reqs = [request("%s-%d" % (name, j), "PUT", e, "root", {"If-None-Match": "*"}, write_body(r, e, 100 * k + j)) for j in range(r.choice([2, 4, 8]))]
+                    meta[name] = dict(X0, g="n" if e == "ngroup" else "g", form="star", hdr="If-None-Match", addr="any", obj=OBJ[e], kind="create")
+                else:
+                    nw = RACE_WRITES[0]
+                    writes = [request("%s-w%d" % (name, j), "PUT", "group", "root", {}, json.dumps({"displayName": "race", "description": "y" * (40 + (b * 31 + k * 977) % 300 + j)})) for j in range(nw)]
+                    st.append(["readrace", name, request(name + "-r", "GET", "group", "root"), writes, 8])
+                    meta[name] = dict(X0, g="g", addr="any", kind="readers")
+                    continue
                 st.append(["httprace", name, reqs])
-                meta[name] = dict(X0, g="g", editor=src, form="exact", hdr="If-Match", addr="any", obj=OBJ[e])
                 continue
             m = "PUT"
             if kind == "delete" and (e not in ("group",) or r.random() < 0.25):
@@ -255,7 +285,7 @@ def run_table(rep, w, tier, pid, replay=None):
         behs, meta = rp["http_behaviours"], rp["meta"]
     else:
         r = C.tlc(w, "AdminAPI.tla", "MC_AdminAPI.cfg", workers=1, timeout=900, deadlock=False)
-        rep.model("MC_AdminAPI.cfg (complete table: 8 methods x 18 endpoint shapes x 11 credential kinds, with scope invariants)", r, exhaustive=True)
+        rep.model("MC_AdminAPI.cfg (complete table: 8 methods x 18 endpoint shapes x 13 credential kinds, with scope invariants)", r, exhaustive=True)
         if r.violated:
             raise C.Inconclusive("AdminAPI table violates " + r.violated)
         C.must_complete(r, "MC_AdminAPI")
@@ -263,7 +293,8 @@ def run_table(rep, w, tier, pid, replay=None):
         if not rows:
             raise C.Inconclusive("no API rows enumerated")
         behs, meta = table_behaviours(rows)
-        more = [sequences(C.seed(), 40 if thorough else 8), crashes(), whips()]
+        RACE_WRITES[0] = 1500 if thorough else 150
+        more = [sequences(C.seed(), 40 if thorough else 10), crashes(), whips()]
         if pid == "C12":
             more.append(fuzz(C.seed(), 1500 if thorough else 300))
         for (bs, mt) in more:
@@ -279,6 +310,17 @@ def run_table(rep, w, tier, pid, replay=None):
     if rc != 0:
         raise C.Inconclusive("srvdrive (http) failed (exit %d): %s" % (rc, out[-1500:]))
     events = C.read_ndjson(trace)
+    if pid == "C18" and not replay:
+        tb = C.go_test_binary(w, "group", "group.defs.test")
+        t1 = os.path.join(w, "trace_defsrace.ndjson")
+        env = dict(C.GOENV)
+        env.update({"VERIF_OUT": t1, "VERIF_RACE_MS": "20000" if thorough else "2500"})
+        rc, out, _ = C.run([tb, "-test.run", "^TestVerifDefsRace$", "-test.count=1"], cwd=w, env=env, timeout=600)
+        if rc != 0:
+            raise C.Inconclusive("group reader-race harness failed (exit %d): %s" % (rc, out[-1500:]))
+        behs.append({"name": "library-reader-race", "steps": []})
+        events += C.read_ndjson(t1)
+        meta["library-reader-race"] = dict(X0, g="r", kind="readers")
     bi = -1
     for e in events:
         if e["ev"] == "New":
@@ -290,6 +332,12 @@ def run_table(rep, w, tier, pid, replay=None):
         if e["ev"] == "httprace":
             e.setdefault("statuses", [])
             e.setdefault("oks", 0)
+        if e["ev"] == "readrace":
+            rr = rep.cov.setdefault("reader_writer_races", {"races": 0, "reads": 0, "versions_seen": 0, "writes_acknowledged": 0})
+            rr["races"] += 1
+            rr["reads"] += e["reads"]
+            rr["versions_seen"] += e["versions"]
+            rr["writes_acknowledged"] += e["acked"]
         for k in ("method", "path", "etag", "digest"):
             e.setdefault(k, "")
         e.setdefault("parts", [])
@@ -325,7 +373,7 @@ def run_table(rep, w, tier, pid, replay=None):
             rep.cov["current_tag_refused_(not_a_violation)"] = rep.cov.get("current_tag_refused_(not_a_violation)", 0) + 1
         elif clause.startswith(PREFIX[pid]):
             b = behs[nb - 1] if 0 < nb <= len(behs) else None
-            rep.violation("%s at line %d (behaviour '%s'): %s" % (clause, line, b["name"] if b else "", json.dumps({k: e.get(k) for k in ("ev", "name", "method", "path", "status", "statuses", "leaks", "x", "how", "body") if e.get(k) not in (None, "", [])})[:600]),
+            rep.violation("%s at line %d (behaviour '%s'): %s" % (clause, line, b["name"] if b else "", json.dumps({k: e.get(k) for k in ("ev", "name", "method", "path", "status", "statuses", "conflicts", "partial", "leaks", "x", "how", "body") if e.get(k) not in (None, "", [])})[:600]),
                           {"http_behaviours": [b] if b else [], "meta": {k: meta[k] for k in meta if b and any(len(s) > 1 and s[1] == k for s in b["steps"])}})
         else:
             rep.notes.append("clause %s of another property failed at line %d" % (clause, line))
